@@ -255,8 +255,8 @@ func Diff(want, got *yref.XNode, o DiffOpts, path string) *D {
 	if want.Kind != got.Kind {
 		return &D{path, "kind", fmt.Sprintf("expected %s, observed %s", want.Kind, got.Kind)}
 	}
-	// an implicit case has no text of its own; goyang copies its member's config onto it (same read-only result)
-	if !want.Implicit && !eqBool(want.Config, got.Config) {
+	// an implicit case has no text of its own and so no config of its own
+	if !eqBool(want.Config, got.Config) {
 		return &D{path, "config", fmt.Sprintf("expected %s, observed %s", bs(want.Config), bs(got.Config))}
 	}
 	if !eqBool(want.Mandatory, got.Mandatory) {
@@ -285,7 +285,7 @@ func Diff(want, got *yref.XNode, o DiffOpts, path string) *D {
 	if o.NS && want.NS != got.NS && !(o.SkipImplicitCaseNS && want.Implicit) {
 		return &D{path, "namespace", fmt.Sprintf("expected module %s, observed %s", want.NS, got.NS)}
 	}
-	if o.ReadOnly && want.ReadOnly != got.ReadOnly && !want.Implicit {
+	if o.ReadOnly && want.ReadOnly != got.ReadOnly {
 		return &D{path, "read-only", fmt.Sprintf("expected %v, observed %v", want.ReadOnly, got.ReadOnly)}
 	}
 	if o.Defaults && want.Type != nil && fmt.Sprint(want.DefaultVal) != fmt.Sprint(got.DefaultVal) {
